@@ -29,6 +29,11 @@ ASSUMPTIONS = [
     "15 store operations, store reached directly / through a mount 'm' of a MountPointStore / through Context.evaluate_resource",
     "'refuses' = raises any Exception without having touched anything outside the root",
 ]
+def PRECHECK():
+    from engine.shim_validate import validate
+    return validate()
+
+
 EXPLANATION = "read-only proxy step lemma + root-containment kernel over ShimFS access logs"
 
 MUTATORS = ["store", "store_metadata", "remove", "removedir", "removedir_recursive", "makedir", "openbin_write"]
